@@ -332,6 +332,9 @@ def check_tables(ctx, F, c, I, tb):
         for t in helpers:
             hb_ = c.body(t["call"]["id"])
             hf = [t2 for x_ in [hb_] + c.closures_of(hb_) for _, t2 in x_.calls() if t2["call"]["name"] in ("try_fold", "fold") and "Iterator" in t2["call"]["def"]]
+            hr = [t2 for x_ in [hb_] + c.closures_of(hb_) for _, t2 in x_.calls() if t2["call"]["name"] == "reduce" and "Iterator" in t2["call"]["def"]]
+            if not hf and len(hr) == 1:
+                return "reduce", "None"        # no initial value: an empty member list yields unknown
             if len(hf) == 1:
                 r = dt.resolve_copy(hb_, hf[0]["args"][1])
                 if r[0] == "def" and r[1][1] != "T" and r[1][2]["r"].get("agg") == "adt":
